@@ -517,3 +517,11 @@ Theorem clean_variance_early_return_refuted :
 Proof.
   exists [(3 # 4096, 7); (1 # 1024, 9)]. vm_compute. split; reflexivity.
 Qed.
+
+(* ... and when EVERY abscissa is inside that relative band of the first one (while the variance is not below tol) the
+   function does not return at all: np.flatnonzero(mask)[0] raises IndexError *)
+Theorem clean_relative_band_raises_refuted :
+  exists (c : list pt), clean_curve tol c = Err EIndex /\ 100000 * tol < spread (map fst c).
+Proof.
+  exists [(256001 # 4, 310); (64000, 300); (64000, 40)]. vm_compute. split; reflexivity.
+Qed.
